@@ -887,6 +887,7 @@ func (r *Raft) ApplyLog(log Log, timeout time.Duration) ApplyFuture {
 			Extensions: log.Extensions,
 		},
 	}
+	logFuture.ShutdownCh = r.shutdownCh
 	logFuture.init()
 
 	select {
@@ -913,6 +914,7 @@ func (r *Raft) Barrier(timeout time.Duration) Future {
 
 	// Create a log future, no index or term yet
 	logFuture := &logFuture{log: Log{Type: LogBarrier}}
+	logFuture.ShutdownCh = r.shutdownCh
 	logFuture.init()
 
 	select {
@@ -931,6 +933,7 @@ func (r *Raft) Barrier(timeout time.Duration) Future {
 func (r *Raft) VerifyLeader() Future {
 	metrics.IncrCounter([]string{"raft", "verify_leader"}, 1)
 	verifyFuture := &verifyFuture{}
+	verifyFuture.ShutdownCh = r.shutdownCh
 	verifyFuture.init()
 	select {
 	case <-r.shutdownCh:
